@@ -212,7 +212,7 @@ def as_cfg(draw):
         masses=[draw(S.fl(5.0, 200.0, 50.0)) for _ in range(2)],
         mass_loc=[[draw(S.fl(-1.0, 2.0, 0.5)), draw(S.fl(0.05, 0.9, 0.4)), draw(S.fl(-0.5, 0.5, 0.0))] for _ in range(2)],
         thrust=[draw(S.fl(0.0, 2000.0, 0.0)) for _ in range(2)],
-        alpha=draw(S.fl(-2.0, 8.0, 3.0)),
+        alpha=draw(S.fl(1.0, 8.0, 3.0)),
         v=draw(S.fl(30.0, 120.0, 80.0)),
         rho=draw(S.fl(0.3, 1.2, 1.0)),
         Mach=draw(S.fl(0.1, 0.8, 0.3)),
@@ -271,6 +271,10 @@ def as_verdict(desc):
     ph.run_model()
     pf = aerostruct_problem([sf], flf, compressible=desc["compressible"])
     pf.run_model()
+    if float(ph.get_val("AS_point_0.CL")[0]) < 1e-3:
+        from oasv.core import Discard
+
+        raise Discard("non-lifting aerostructural point (Breguet fuel burn, cg, CM undefined at CL <= 0)")
     rt = 1e-7
     # Point masses / thrusts are smeared over ALL structural nodes with normalised weights 1/(dy^10 + 1e-10) (documented in
     # ComputePointMassLoads): in the full-span model a share eps of each mass leaks to the nodes of the other half, so the
